@@ -96,7 +96,11 @@ def run_config(cfg, mode='all', decisions=None):
             r = comm.Get_rank()
             with warnings.catch_warnings():
                 warnings.simplefilter('ignore')
-                sw = lay.LayoutSwapper(comm, [dict(g) for g in groups], [p if isinstance(p, int) else list(p) for p in gprocs], eta, fam['start'])
+                try:
+                    sw = lay.LayoutSwapper(comm, [dict(g) for g in groups], [p if isinstance(p, int) else list(p) for p in gprocs], eta, fam['start'])
+                except AssertionError as e:
+                    # the constructor's own consistency assertions: the grouping is not accepted (outside the property)
+                    raise RuntimeError('grouping refused by an assertion of the constructor: could not be connected / %s' % (e,))
                 ls, ld = sw.getLayout(src), sw.getLayout(dst)
                 jf = lambda w: (lambda pos: junk(symx.ival(r), symx.ival(w), pos))
                 s = symnp.new_array('src%d' % r, sw.bufferSize, LS.field_init(ls, G, jf(0)))
